@@ -1,0 +1,36 @@
+//go:build verif
+
+package websocket
+
+// Contracts for the WebSocket stream: frames queued for writing (C16), the RFC 6455 state
+// machine (C08) and protocol violations (C15).
+
+//@ immutable [C08,C15,C16] Stream.role Stream.src Stream.dst constructors NewWebsocketStream
+
+// Every frame the pool hands out or takes back has a header, dynamic storage and a sane size.
+//@ pred poolFrame(f *Frame) = f != nil && len(*f) >= 2 && heapslice(*f) && cap(*f) <= 1<<46
+
+// A frame ready for the wire: header + declared length, masked iff we are a client.
+//@ pred wireFrame(s *Stream, f *Frame) =
+//@   poolFrame(f) && frameWF(*f) && ((s.role == RoleClient) == (((*f)[1] & 128) != 0))
+
+//@ pred qInv(s *Stream) =
+//@   len(s.pendingFrames) <= 1<<20 &&
+//@   (forall j :: 0 <= j && j < len(s.pendingFrames) ==> s.pendingFrames[j] != nil)
+
+//@ func ext:sync.(*Pool).Get
+//@   trusted
+//@   modifies nothing
+//@ func ext:sync.(*Pool).Put
+//@   trusted
+//@   modifies nothing
+
+// Frames come from the pool (or its New function); the pool only ever holds frames that
+// releaseFrame put there, which satisfy poolFrame (rely on sync.Pool).
+//@ func (*Stream).AcquireFrame
+//@   prop C16
+//@   assume-typeassert Frame
+//@   assume def f: poolFrame(f)
+//@   ensures [frame] poolFrame(result)
+//@   ensures [client-mask] s.role == RoleClient ==> (*result)[1] & 128 != 0
+//@   ensures [other-bits] (*result)[0] == old((*result)[0]) && (*result)[1] & 127 == old((*result)[1] & 127)
